@@ -36,6 +36,8 @@ func execOp(f []string) string {
 		return o.line()
 	case "race":
 		return execRace(f[1:])
+	case "cross":
+		return execCross(f[1:])
 	}
 	return "bad-op"
 }
@@ -62,6 +64,17 @@ func recheck(oracle string, ops, res []string) (bool, string) {
 			}
 			if bad := flagsOf(r); len(bad) > 0 {
 				detail := fmt.Sprintf("op %d: flags %v are 0 (%s)", i, bad, r)
+				if f := strings.Fields(ops[i]); len(f) > 2 && f[1] == "cross" {
+					detail += "\nthe graphs of universe 2 computed by a process that resolved universe 1 first differ from those a process computes for universe 2 alone: some state outside client and resolver survives between resolutions"
+					if sys, ok := sysOf(f[2]); ok {
+						if u1, ok := decodeUniverse(sys, f[3]); ok {
+							detail += "\nuniverse 1:\n" + u1.text()
+						}
+						if u2, ok := decodeUniverse(sys, f[5]); ok {
+							detail += "universe 2:\n" + u2.text()
+						}
+					}
+				}
 				if f := strings.Fields(ops[i]); len(f) > 2 && f[1] == "history" {
 					if u, roots, seed, ok := parseHistory(f[2:]); ok {
 						o := runHistory(u, roots, seed, 7)
@@ -88,7 +101,9 @@ const rule = "universes: random npm / Maven / PyPI universes (2-12 packages, 1-8
 	"unsatisfiable and unparsable strings; dependency types incl. npm aliases, Maven exclusions/management/scope/classifier, PyPI markers and extras; " +
 	"versions listed in random order) plus every universe of util/resolve/{npm,maven,pypi}/testdata. One op = one universe with a shuffled list of its roots; " +
 	"the op dumps the client, resolves every root fresh (G0), replays the list twice on one client+resolver, compares the client dump, rebuilds the client in two " +
-	"permuted insertion orders, and runs the list on 16 goroutines. Distinct = distinct G0 hash; non-trivial = at least one root whose graph has an edge."
+	"permuted insertion orders, and runs the list on 16 goroutines. A second op kind (cross) resolves universe 1 and then a variant of it (same names and requirement strings, " +
+	"about half of the versions removed) in one fresh child process and compares with a child that resolves only the variant (state surviving outside client and resolver). " +
+	"Distinct = distinct G0 hash; non-trivial = at least one root whose graph has an edge."
 
 func main() {
 	if len(os.Args) > 1 {
@@ -99,12 +114,18 @@ func main() {
 		case "racebatch":
 			raceBatchMain(os.Args[2:])
 			return
+		case "g0":
+			g0Main(os.Args[2:])
+			return
+		case "g0after":
+			g0AfterMain(os.Args[2:])
+			return
 		case "mkcorpus":
 			mkCorpus()
 			return
 		case "show":
 			// show <op fields...>: decode and re-run one op verbosely
-			if u, roots, seed, ok := parseHistory(os.Args[3:]); ok {
+			if u, roots, seed, ok := parseHistory(os.Args[4:]); ok {
 				o := runHistory(u, roots, seed, 7)
 				fmt.Println(u.text())
 				fmt.Println("roots:", roots)
@@ -114,7 +135,6 @@ func main() {
 			return
 		}
 	}
-	defer profStop()
 	fw.Main(&fw.Prop{
 		ID:      "C05",
 		Rule:    rule,
@@ -149,13 +169,21 @@ func run(c *fw.Ctx) {
 			c.Note(n)
 		}
 		for _, cc := range cases {
+			_, nv, nr := cc.u.size()
+			if nv+nr > 20000 {
+				c.Note(fmt.Sprintf("testdata universe %s skipped: %d versions, %d requirements (op line would exceed 1 MB)", cc.name, nv, nr))
+				continue
+			}
+			if nv+nr > 2000 && len(cc.roots) > 2 {
+				cc.roots = cc.roots[:2]
+			}
 			roots := append([]rootRef(nil), cc.roots...)
 			c.Rng.Shuffle(len(roots), func(i, j int) { roots[i], roots[j] = roots[j], roots[i] })
 			jobs = append(jobs, job{cc.u, roots, c.Rng.Int63n(1 << 30), "testdata-" + sysName(sys)})
 		}
 	}
 	// 2. generated
-	per := c.N(260, 9000)
+	per := c.N(260, 2000)
 	for _, sys := range []resolve.System{resolve.NPM, resolve.Maven, resolve.PyPI} {
 		for i := 0; i < per; i++ {
 			u := genUniverse(c.Rng, sys, i%5 == 4)
@@ -167,7 +195,7 @@ func run(c *fw.Ctx) {
 			for v := 0; v < variants; v++ {
 				roots := append([]rootRef(nil), all...)
 				c.Rng.Shuffle(len(roots), func(i, j int) { roots[i], roots[j] = roots[j], roots[i] })
-				if max := c.N(10, 24); len(roots) > max {
+				if max := c.N(10, 16); len(roots) > max {
 					roots = roots[:max]
 				}
 				// occasionally repeat a root inside the history
@@ -188,12 +216,12 @@ func run(c *fw.Ctx) {
 		res string
 	}
 	outs := make([]outc, len(jobs))
-	workers := runtime.NumCPU() / 4
+	workers := runtime.NumCPU() / 2
 	if workers < 2 {
 		workers = 2
 	}
-	if workers > 4 {
-		workers = 4
+	if max := c.N(4, 8); workers > max {
+		workers = max
 	}
 	var wg sync.WaitGroup
 	next := make(chan int)
@@ -255,6 +283,34 @@ func run(c *fw.Ctx) {
 			shrunk++
 			su, sr := shrink(j.u, j.roots, j.seed, flagsOf(res))
 			idx, _ := c.Op(historyLine(su, sr, j.seed))
+			c.Check("pure", idx)
+		}
+	}
+
+	// cross-universe / process-history ops
+	ncross := c.N(40, 400)
+	for _, sys := range []resolve.System{resolve.NPM, resolve.Maven, resolve.PyPI} {
+		for i := 0; i < ncross; i++ {
+			u1 := genUniverse(c.Rng, sys, false)
+			u2 := variant(c.Rng, u1)
+			r1, r2 := u1.allRoots(), u2.allRoots()
+			if len(r1) > 12 {
+				r1 = r1[:12]
+			}
+			if len(r2) > 12 {
+				r2 = r2[:12]
+			}
+			idx, res := c.Op(crossLine(u1, r1, u2, r2))
+			c.Count("cross:" + sysName(sys))
+			if strings.HasSuffix(res, "fresh:1") {
+				c.Tally(1)
+				continue
+			}
+			if res == "timeout" {
+				c.Count("result:timeout")
+				continue
+			}
+			c.Count("fail:fresh:" + sysName(sys))
 			c.Check("pure", idx)
 		}
 	}
